@@ -72,6 +72,20 @@ def make_map(rng, t):
     cands.append((T.path("nope", "never"), "non-member"))
     cands.append((T.ident(rng.choice(BUILTIN_KEYS)), "builtin-name-key"))
     mapping = {}
+    # chained entries: K1 -> T and T/x -> other, with K1/x in the filter.  Substitution is ONE
+    # pass over the field references of the input: the second entry matches nothing there.
+    paths = [r for r in refs if r[0] == "attr"]
+    if paths and rng.random() < 0.2:
+        ref = rng.choice(paths)
+        chain = [ref] + prefixes(ref)          # ref, its owner, ..., its root
+        if len(chain) >= 2:
+            k = rng.randrange(1, len(chain))
+            k1, below = chain[k], chain[k - 1]      # below = k1/x
+            tgt = rng.choice([T.ident("tgt"), T.path("tt", "uu"), ("id", "tgt", ("ns",))])
+            second_key = ("attr", tgt, below[2])
+            mapping[k1] = tgt
+            mapping[second_key] = rng.choice([T.ident("chained"), T.path("never", "here")])
+            classes.append("chained-entries")
     for _ in range(rng.choice([0, 1, 1, 2, 3, 4])):
         key, cl = rng.choice(cands)
         if key in mapping:
